@@ -1167,6 +1167,99 @@ def r01_4b(ctx):
                f"the end of the snippet range is assigned a value that no dominating comparison bounds by len() ({how}): slicing the input panics when it lands behind the end")
 
 
+BUF_READERS = ("is_empty", "len", "capacity", "as_ptr", "as_slice", "deref", "as_ref")
+
+
+def _buf_root(fn, l):
+    """where a `&mut Vec` operand comes from: ('param', n) | ('local', l) | None"""
+    sl, leaves = backward_slice(fn, [l]) if l is not None else (set(), [])
+    ps = [lf[1] for lf in leaves if lf[0] == "param" and "Vec<" in fn.locals[lf[1]]["ty"]]
+    if ps:
+        return ("param", ps[0])
+    for x in sl | ({l} if l is not None else set()):
+        if "Vec<" in fn.locals[x]["ty"] and not fn.locals[x]["ty"].startswith("&"):
+            return ("local", x)
+    return None
+
+
+def _writers_reaching(fn, root, site_block):
+    """calls that may write the buffer and from which the call site can be reached without passing a clear()"""
+    clears = set()
+    writers = []
+    for b, t in fn.calls():
+        for i, a in enumerate(t["args"]):
+            l = op_local(a)
+            if l is None or not (t.get("argtys") or [""] * 9)[i].startswith("&mut") or "Vec<" not in (t.get("argtys") or [""] * 9)[i]:
+                continue
+            if _buf_root(fn, l) != root:
+                continue
+            nm = t["callee"].rsplit("::", 1)[-1]
+            if nm == "clear":
+                clears.add(b)
+            elif nm not in BUF_READERS:
+                writers.append((b, t))
+    out = []
+    for b, t in writers:
+        if b == site_block:
+            continue
+        nxt = fn.succs(b)
+        if any(site_block == x or site_block in fn.reachable_from(x, avoid=clears) for x in nxt if x not in clears):
+            out.append(t)
+    return out
+
+
+def r01_15(ctx):
+    """an assertion that a scratch buffer handed in by the caller is empty holds on every call path: the buffer is freshly
+    created or cleared on every path to every (transitive) call site - interprocedural typestate over `&mut Vec` parameters"""
+    prog = ctx.prog()
+    sites = []
+    for f in prog.fns.values():
+        if f.crate != "sonic_rs":
+            continue
+        for b, t in f.calls():
+            if "core::panicking::panic" not in t["callee"] or f.d["blocks"][b].get("cleanup"):
+                continue
+            # the panic is the failing side of a test of is_empty() on a &mut Vec parameter
+            for cb, ct in f.calls():
+                if callee_is(ct, "is_empty") and "Vec" in ct["callee"] and f.dominates(cb, b):
+                    from ..analysis import bool_switch_edges
+                    e = bool_switch_edges(f, ct["dest"][0])
+                    if e and (b == e[1] or (f.dominates(e[1], b) and b not in f.reachable_from(e[0], avoid={e[1]}))):
+                        root = _buf_root(f, op_local(ct["args"][0]))
+                        if root and root[0] == "param":
+                            sites.append((f, root[1], t))
+    bad = []
+    for f, p, t in sites:
+        seen = set()
+        work = [(f, p, [short(f.id)])]
+        while work:
+            g, q, path = work.pop()
+            if (g.id, q) in seen or len(path) > 6:
+                continue
+            seen.add((g.id, q))
+            for h, hb, ht in prog.callers_of(lambda tt, gid=g.id: tt.get("callee") == gid):
+                if len(ht["args"]) < q:
+                    continue
+                a = op_local(ht["args"][q - 1])
+                root = _buf_root(h, a)
+                if root is None:
+                    continue
+                ws = _writers_reaching(h, root, hb)
+                if ws:
+                    bad.append((f, t, h, ws[0], path))
+                elif root[0] == "param":
+                    work.append((h, root[1], path + [short(h.id)]))
+    keys = collections.Counter()
+    for f, t, h, w, path in bad:
+        k = f"{short(f.id)}<-{short(h.id)}"
+        keys[k] += 1
+        if keys[k] > 1:
+            continue
+        ctx.ob("R01.15", f"asserted-empty:{k}", False, f.loc(t["ln"]),
+               f"{short(f.id)} asserts that its scratch buffer is empty, but on the path {' <- '.join(path)} <- {short(h.id)} the buffer was handed to {w['callee'].rsplit('::', 1)[-1]}() (line {w['ln']}) and not cleared: the assertion fails in builds with debug assertions (a panic on well-formed input)")
+    ctx.ob("R01.15", "asserted-empty-buffers-hold", not bad, "", f"{len(sites)} assertion(s) that a caller-supplied scratch buffer is empty; every transitive call site passes a fresh or cleared buffer" if not bad else f"{len(bad)} call path(s) reach an emptiness assertion with a written buffer")
+
+
 def r01_14(ctx):
     """data borrowed for 'de lives in the caller's buffer: a JsonInput implemented for a reference gives the reader either
     the borrowed bytes themselves or an owner that shares the caller's buffer.  The reader pins what it is given and
@@ -1253,4 +1346,4 @@ def r01_s(ctx):
     ctx.include(c16.r16_6, 'R01.S')
 
 
-RULES = [("R01.1", r01_1), ("R01.2", r01_2), ("R01.2b", r01_2b), ("R01.3", r01_3), ("R01.4", r01_4), ("R01.4b", r01_4b), ("R01.5", r01_5), ("R01.6", r01_6), ("R01.7", r01_7), ("R01.8", r01_8), ("R01.9", r01_9), ("R01.10", r01_10), ("R01.11", r01_11), ("R01.12", r01_12), ("R01.13", r01_13), ("R01.14", r01_14), ("R01.W", r01_w), ("R01.S", r01_s)]
+RULES = [("R01.1", r01_1), ("R01.2", r01_2), ("R01.2b", r01_2b), ("R01.3", r01_3), ("R01.4", r01_4), ("R01.4b", r01_4b), ("R01.5", r01_5), ("R01.6", r01_6), ("R01.7", r01_7), ("R01.8", r01_8), ("R01.9", r01_9), ("R01.10", r01_10), ("R01.11", r01_11), ("R01.12", r01_12), ("R01.13", r01_13), ("R01.14", r01_14), ("R01.15", r01_15), ("R01.W", r01_w), ("R01.S", r01_s)]
